@@ -231,6 +231,17 @@ class SpanWrappingMatcher(wrappers.WrappingMatcher):
         self.child.skip_to(id)
         self._find_next()
 
+    def skip_to_quality(self, minquality):
+        skipped = self.child.skip_to_quality(minquality / self.boost)
+        self._find_next()
+        return skipped
+
+    def reset(self):
+        self.child.reset()
+        self._spans = None
+        if self.is_active():
+            self._find_next()
+
     def all_ids(self):
         while self.is_active():
             if self.spans():
